@@ -118,7 +118,24 @@ CHECKS["C16"] = dict(
     ref="DESIGN.md section 5 C16",
     technique="TLC model checking (PathLocks/ConnLoop progress) + concurrent model-history replay + random workloads with TLC-validated logs + race detector")
 
+CHECKS["C10"] = dict(
+    engine="client", category="model_checking",
+    note=("Trusted base: TLC; the transcription of sendRecv/waitAndRecv/handleOne/pool.go in spec/Client.tla; lib/bigstep.py; "
+          "quiescence judged by an idle window and confirmed once. Tag values are not compared. Open finding R15 is matched "
+          "only in scripts that contain an unacceptable frame."),
+    text=("TLC checks on Client.tla (2-3 concurrent callers, LIFO tag pool, recycled response objects with 1-slot channels, the "
+          "receive token, all reply orders, unknown-tag / wrong-type / undecodable / truncated / garbage frames, close, failing "
+          "and blocking writes) that outstanding tags are distinct, that a successful call carries the reply to its own request "
+          "and that no reachable quiescent state leaves a caller blocked that should have returned. Every stimulus script of "
+          "the bounded configurations is executed against the real p9.Client with a scripted server and its observations "
+          "(per caller: blocked / error / success with WHICH reply) must be a path of TLC's graph."),
+    ref="DESIGN.md section 5 C10, section 3.8",
+    technique="TLC model checking of Client.tla + big-step conformance of scripted-server schedules against p9.Client")
+
 ENGINES = [
+    {"name": "client", "path": "spec/Client.tla + spec/MC_Client.tla + lib/bigstep.py + harness/cmd/clientsched",
+     "serves_properties": ["C10"],
+     "kind_free_text": "small-step TLA+ spec of the client multiplexer with a scripted server as environment; big-step conformance"},
     {"name": "concurrency", "path": "harness/cmd/workload + harness/cmd/isoreplay + spec/PathLocks.tla + spec/ConnLoop.tla + spec/Trace_Overlap.tla",
      "serves_properties": ["C16"],
      "kind_free_text": "progress model-checked on the lock/connection specs; concurrent replay of Session.tla histories; random workloads whose logs TLC validates"},
